@@ -49,12 +49,18 @@ type Config struct {
 	SlowCB   time.Duration // lifecycle callbacks sleep this long (virtual)
 	V6       bool          // server listens on an IPv6 address
 	NoAuth   bool          // no AuthHandler configured (STUN-only server)
+	Wild     bool          // the stream listener is bound to the unspecified address (0.0.0.0:3478), as in production
 	Name     string
 }
 
 func (c Config) String() string {
-	return fmt.Sprintf("life=%v perm=%v chan=%v policy=%s stream=%v mtu=%d strict=%v slow=%v v6=%v",
+	s := fmt.Sprintf("life=%v perm=%v chan=%v policy=%s stream=%v mtu=%d strict=%v slow=%v v6=%v",
 		c.Lifetime, c.Perm, c.Chan, c.Policy, c.Stream, c.MTU, c.Strict, c.SlowCB, c.V6)
+	if c.Wild {
+		s += " wildcard-listener"
+	}
+
+	return s
 }
 
 // LifetimeOrDefault etc. give the effective values.
@@ -297,7 +303,14 @@ func NewWorld(cfg Config, clients, peers []string) (*World, error) {
 		return nil, fmt.Errorf("unknown policy %q", cfg.Policy)
 	}
 	if cfg.Stream {
-		l, err := w.Net.ListenTCPAddr("tcp", &net.TCPAddr{IP: w.SrvAddr.IP, Port: w.SrvAddr.Port})
+		lip := w.SrvAddr.IP
+		if cfg.Wild {
+			lip = net.IPv4zero
+			if lip4 := w.SrvAddr.IP.To4(); lip4 == nil {
+				lip = net.IPv6unspecified
+			}
+		}
+		l, err := w.Net.ListenTCPAddr("tcp", &net.TCPAddr{IP: lip, Port: w.SrvAddr.Port})
 		if err != nil {
 			return nil, err
 		}
